@@ -84,6 +84,16 @@ CHECKS.update({
             "modelled, validated by the tie on 88 static flag combinations incl. plain i128", PROVED, "§3 C11"),
 })
 
+CHECKS.update({
+    "C06": ("proof", "unbounded theorems over every byte string shorter than 2^62: FromStr/TryFrom return a value in every profile (no panic, no "
+            "overflow check, no read outside the string: the model's unchecked skips answer UB when bytes are missing), Empty only for the empty "
+            "string, and the outcome is the one the literal grammar prescribes (digits, scale max(0, fraction - exponent), 18-digit and 2^127-1 "
+            "limits) outside known findings K2 (exponent written with > 2 digits) and K4 (zero digits, folded exponent > 38), both with proved "
+            "witnesses; the 8-digit SWAR test/convert and the wrapping accumulator's after-the-fact overflow detection are theorems for every word "
+            "and every digit-run length",
+            PROVED, "§3 C06"),
+})
+
 NOT_YET = {}
 
 def main():
